@@ -25,7 +25,7 @@ PLAN = {
     "thorough": {"shards": 16, "shard_timeout": 3600, "case_timeout": 30, "grammars": 300000, "max_case_timeouts": 30},
 }
 THRESHOLDS = {
-    "quick": {"symbols_compared": 8000, "grammars_compared": 1200, "usable_compared": 1000, "corpus_grammars": 5, "recursive_symbols_seen": 500, "unreachable_symbols_seen": 200, "kind:union": 100, "kind:tuple": 100, "kind:bool": 100, "expansion_grammars": 100, "sibling_grammars_compared": 3000},
+    "quick": {"symbols_compared": 8000, "grammars_compared": 1200, "usable_compared": 1000, "corpus_grammars": 5, "recursive_symbols_seen": 500, "unreachable_symbols_seen": 200, "kind:union": 100, "kind:tuple": 100, "kind:bool": 100, "expansion_grammars": 100, "sibling_grammars_compared": 3000, "redeclared_grammars_compared": 800},
     "thorough": {"symbols_compared": 300000, "grammars_compared": 50000, "usable_compared": 40000, "corpus_grammars": 5},
 }
 
@@ -247,6 +247,18 @@ def run_case(case, rec):
                 continue
             rec.count("sibling_grammars_compared")
             compare(f"{desc['name']}#{tag}", classes, built.start, exp, g2, rec, which="sibling")
+        # the documented idiom Prod.__init__.__annotations__[field] = NewType, then a new extraction over the same classes
+        d2 = grammars.retyped(desc, rng)
+        if d2 is not None:
+            b2 = grammars.apply_retype(built, d2)
+            try:
+                g3 = grammars.extract(b2)
+                rec.count("redeclared_grammars_compared")
+                compare(d2["name"], b2.classes, b2.start, bool(d2.get("expansion")), g3, rec, which="redeclared")
+            except core.CaseTimeout:
+                raise
+            except BaseException as e:  # noqa
+                rec.violation(f"extract:raises:{type(e).__name__}@{core.exc_site(e)}", {"grammar": d2["name"], "error": core.short(e)})
         if case["i"] % 50 == 0:
             rec.sample({"grammar": desc["name"], "expansion": desc["expansion"], "start": built.start.__name__, "min_depth_library": g.get_min_tree_depth(), "min_depth_reference": sorted({lo[built.start], hi[built.start]}), "recursive": sorted(c.__name__ for c in model.recursive())})
     finally:
